@@ -246,6 +246,357 @@ fn c11_bytes_mul_clamp() {
 
 
 
+
+// ---------------------------------------------------------------- C01/C02: kind-level table of the helpers (op_table of the Verus prelude optypes.rs)
+// restricted to the heap-free variants null/boolean/integer/float (byte strings, timestamps and collections run into rule 1b)
+// @unit tier=t float=1 timeout=2400 prop=C01 fn=try_add bounded="operand variants null, boolean, integer, float (all payloads)"
+#[kani::proof]
+#[kani::unwind(2)]
+#[kani::stub(regex::Regex::new, crate::compiler::kani_support::stub_regex_new)]
+fn k_optable_add() {
+    {
+        let r = (Value::Null).try_add(Value::Null);
+        assert!(matches!(&r, Err(e) if !matches!(e, ValueError::NanFloat | ValueError::Or(_))), "C01.optable.add: try_add returns the variant the kind table says (Integer / Float-or-NaN-error / Boolean) or a type error, for every pair of heap-free scalar variants");
+        core::mem::forget(r);
+    }
+    {
+        let r = (Value::Null).try_add(Value::Boolean(kani::any()));
+        assert!(matches!(&r, Err(e) if !matches!(e, ValueError::NanFloat | ValueError::Or(_))), "C01.optable.add: try_add returns the variant the kind table says (Integer / Float-or-NaN-error / Boolean) or a type error, for every pair of heap-free scalar variants");
+        core::mem::forget(r);
+    }
+    {
+        let r = (Value::Null).try_add(Value::Integer(kani::any()));
+        assert!(matches!(&r, Err(e) if !matches!(e, ValueError::NanFloat | ValueError::Or(_))), "C01.optable.add: try_add returns the variant the kind table says (Integer / Float-or-NaN-error / Boolean) or a type error, for every pair of heap-free scalar variants");
+        core::mem::forget(r);
+    }
+    {
+        let r = (Value::Null).try_add(flt(any_non_nan()));
+        assert!(matches!(&r, Err(e) if !matches!(e, ValueError::NanFloat | ValueError::Or(_))), "C01.optable.add: try_add returns the variant the kind table says (Integer / Float-or-NaN-error / Boolean) or a type error, for every pair of heap-free scalar variants");
+        core::mem::forget(r);
+    }
+    {
+        let r = (Value::Boolean(kani::any())).try_add(Value::Null);
+        assert!(matches!(&r, Err(e) if !matches!(e, ValueError::NanFloat | ValueError::Or(_))), "C01.optable.add: try_add returns the variant the kind table says (Integer / Float-or-NaN-error / Boolean) or a type error, for every pair of heap-free scalar variants");
+        core::mem::forget(r);
+    }
+    {
+        let r = (Value::Boolean(kani::any())).try_add(Value::Boolean(kani::any()));
+        assert!(matches!(&r, Err(e) if !matches!(e, ValueError::NanFloat | ValueError::Or(_))), "C01.optable.add: try_add returns the variant the kind table says (Integer / Float-or-NaN-error / Boolean) or a type error, for every pair of heap-free scalar variants");
+        core::mem::forget(r);
+    }
+    {
+        let r = (Value::Boolean(kani::any())).try_add(Value::Integer(kani::any()));
+        assert!(matches!(&r, Err(e) if !matches!(e, ValueError::NanFloat | ValueError::Or(_))), "C01.optable.add: try_add returns the variant the kind table says (Integer / Float-or-NaN-error / Boolean) or a type error, for every pair of heap-free scalar variants");
+        core::mem::forget(r);
+    }
+    {
+        let r = (Value::Boolean(kani::any())).try_add(flt(any_non_nan()));
+        assert!(matches!(&r, Err(e) if !matches!(e, ValueError::NanFloat | ValueError::Or(_))), "C01.optable.add: try_add returns the variant the kind table says (Integer / Float-or-NaN-error / Boolean) or a type error, for every pair of heap-free scalar variants");
+        core::mem::forget(r);
+    }
+    {
+        let r = (Value::Integer(kani::any())).try_add(Value::Null);
+        assert!(matches!(&r, Err(e) if !matches!(e, ValueError::NanFloat | ValueError::Or(_))), "C01.optable.add: try_add returns the variant the kind table says (Integer / Float-or-NaN-error / Boolean) or a type error, for every pair of heap-free scalar variants");
+        core::mem::forget(r);
+    }
+    {
+        let r = (Value::Integer(kani::any())).try_add(Value::Boolean(kani::any()));
+        assert!(matches!(&r, Err(e) if !matches!(e, ValueError::NanFloat | ValueError::Or(_))), "C01.optable.add: try_add returns the variant the kind table says (Integer / Float-or-NaN-error / Boolean) or a type error, for every pair of heap-free scalar variants");
+        core::mem::forget(r);
+    }
+    {
+        let r = (Value::Integer(kani::any())).try_add(Value::Integer(kani::any()));
+        assert!(matches!(&r, Ok(Value::Integer(_))), "C01.optable.add: try_add returns the variant the kind table says (Integer / Float-or-NaN-error / Boolean) or a type error, for every pair of heap-free scalar variants");
+        core::mem::forget(r);
+    }
+    {
+        let r = (Value::Integer(kani::any())).try_add(flt(any_non_nan()));
+        assert!(matches!(&r, Ok(Value::Float(_)) | Err(ValueError::NanFloat)), "C01.optable.add: try_add returns the variant the kind table says (Integer / Float-or-NaN-error / Boolean) or a type error, for every pair of heap-free scalar variants");
+        core::mem::forget(r);
+    }
+    {
+        let r = (flt(any_non_nan())).try_add(Value::Null);
+        assert!(matches!(&r, Err(e) if !matches!(e, ValueError::NanFloat | ValueError::Or(_))), "C01.optable.add: try_add returns the variant the kind table says (Integer / Float-or-NaN-error / Boolean) or a type error, for every pair of heap-free scalar variants");
+        core::mem::forget(r);
+    }
+    {
+        let r = (flt(any_non_nan())).try_add(Value::Boolean(kani::any()));
+        assert!(matches!(&r, Err(e) if !matches!(e, ValueError::NanFloat | ValueError::Or(_))), "C01.optable.add: try_add returns the variant the kind table says (Integer / Float-or-NaN-error / Boolean) or a type error, for every pair of heap-free scalar variants");
+        core::mem::forget(r);
+    }
+    {
+        let r = (flt(any_non_nan())).try_add(Value::Integer(kani::any()));
+        assert!(matches!(&r, Ok(Value::Float(_)) | Err(ValueError::NanFloat)), "C01.optable.add: try_add returns the variant the kind table says (Integer / Float-or-NaN-error / Boolean) or a type error, for every pair of heap-free scalar variants");
+        core::mem::forget(r);
+    }
+    {
+        let r = (flt(any_non_nan())).try_add(flt(any_non_nan()));
+        assert!(matches!(&r, Ok(Value::Float(_)) | Err(ValueError::NanFloat)), "C01.optable.add: try_add returns the variant the kind table says (Integer / Float-or-NaN-error / Boolean) or a type error, for every pair of heap-free scalar variants");
+        core::mem::forget(r);
+    }
+}
+
+// @unit tier=t float=1 timeout=2400 prop=C01 fn=try_sub bounded="operand variants null, boolean, integer, float (all payloads)"
+#[kani::proof]
+#[kani::unwind(2)]
+#[kani::stub(regex::Regex::new, crate::compiler::kani_support::stub_regex_new)]
+fn k_optable_sub() {
+    {
+        let r = (Value::Null).try_sub(Value::Null);
+        assert!(matches!(&r, Err(e) if !matches!(e, ValueError::NanFloat | ValueError::Or(_))), "C01.optable.sub: try_sub returns the variant the kind table says (Integer / Float-or-NaN-error / Boolean) or a type error, for every pair of heap-free scalar variants");
+        core::mem::forget(r);
+    }
+    {
+        let r = (Value::Null).try_sub(Value::Boolean(kani::any()));
+        assert!(matches!(&r, Err(e) if !matches!(e, ValueError::NanFloat | ValueError::Or(_))), "C01.optable.sub: try_sub returns the variant the kind table says (Integer / Float-or-NaN-error / Boolean) or a type error, for every pair of heap-free scalar variants");
+        core::mem::forget(r);
+    }
+    {
+        let r = (Value::Null).try_sub(Value::Integer(kani::any()));
+        assert!(matches!(&r, Err(e) if !matches!(e, ValueError::NanFloat | ValueError::Or(_))), "C01.optable.sub: try_sub returns the variant the kind table says (Integer / Float-or-NaN-error / Boolean) or a type error, for every pair of heap-free scalar variants");
+        core::mem::forget(r);
+    }
+    {
+        let r = (Value::Null).try_sub(flt(any_non_nan()));
+        assert!(matches!(&r, Err(e) if !matches!(e, ValueError::NanFloat | ValueError::Or(_))), "C01.optable.sub: try_sub returns the variant the kind table says (Integer / Float-or-NaN-error / Boolean) or a type error, for every pair of heap-free scalar variants");
+        core::mem::forget(r);
+    }
+    {
+        let r = (Value::Boolean(kani::any())).try_sub(Value::Null);
+        assert!(matches!(&r, Err(e) if !matches!(e, ValueError::NanFloat | ValueError::Or(_))), "C01.optable.sub: try_sub returns the variant the kind table says (Integer / Float-or-NaN-error / Boolean) or a type error, for every pair of heap-free scalar variants");
+        core::mem::forget(r);
+    }
+    {
+        let r = (Value::Boolean(kani::any())).try_sub(Value::Boolean(kani::any()));
+        assert!(matches!(&r, Err(e) if !matches!(e, ValueError::NanFloat | ValueError::Or(_))), "C01.optable.sub: try_sub returns the variant the kind table says (Integer / Float-or-NaN-error / Boolean) or a type error, for every pair of heap-free scalar variants");
+        core::mem::forget(r);
+    }
+    {
+        let r = (Value::Boolean(kani::any())).try_sub(Value::Integer(kani::any()));
+        assert!(matches!(&r, Err(e) if !matches!(e, ValueError::NanFloat | ValueError::Or(_))), "C01.optable.sub: try_sub returns the variant the kind table says (Integer / Float-or-NaN-error / Boolean) or a type error, for every pair of heap-free scalar variants");
+        core::mem::forget(r);
+    }
+    {
+        let r = (Value::Boolean(kani::any())).try_sub(flt(any_non_nan()));
+        assert!(matches!(&r, Err(e) if !matches!(e, ValueError::NanFloat | ValueError::Or(_))), "C01.optable.sub: try_sub returns the variant the kind table says (Integer / Float-or-NaN-error / Boolean) or a type error, for every pair of heap-free scalar variants");
+        core::mem::forget(r);
+    }
+    {
+        let r = (Value::Integer(kani::any())).try_sub(Value::Null);
+        assert!(matches!(&r, Err(e) if !matches!(e, ValueError::NanFloat | ValueError::Or(_))), "C01.optable.sub: try_sub returns the variant the kind table says (Integer / Float-or-NaN-error / Boolean) or a type error, for every pair of heap-free scalar variants");
+        core::mem::forget(r);
+    }
+    {
+        let r = (Value::Integer(kani::any())).try_sub(Value::Boolean(kani::any()));
+        assert!(matches!(&r, Err(e) if !matches!(e, ValueError::NanFloat | ValueError::Or(_))), "C01.optable.sub: try_sub returns the variant the kind table says (Integer / Float-or-NaN-error / Boolean) or a type error, for every pair of heap-free scalar variants");
+        core::mem::forget(r);
+    }
+    {
+        let r = (Value::Integer(kani::any())).try_sub(Value::Integer(kani::any()));
+        assert!(matches!(&r, Ok(Value::Integer(_))), "C01.optable.sub: try_sub returns the variant the kind table says (Integer / Float-or-NaN-error / Boolean) or a type error, for every pair of heap-free scalar variants");
+        core::mem::forget(r);
+    }
+    {
+        let r = (Value::Integer(kani::any())).try_sub(flt(any_non_nan()));
+        assert!(matches!(&r, Ok(Value::Float(_)) | Err(ValueError::NanFloat)), "C01.optable.sub: try_sub returns the variant the kind table says (Integer / Float-or-NaN-error / Boolean) or a type error, for every pair of heap-free scalar variants");
+        core::mem::forget(r);
+    }
+    {
+        let r = (flt(any_non_nan())).try_sub(Value::Null);
+        assert!(matches!(&r, Err(e) if !matches!(e, ValueError::NanFloat | ValueError::Or(_))), "C01.optable.sub: try_sub returns the variant the kind table says (Integer / Float-or-NaN-error / Boolean) or a type error, for every pair of heap-free scalar variants");
+        core::mem::forget(r);
+    }
+    {
+        let r = (flt(any_non_nan())).try_sub(Value::Boolean(kani::any()));
+        assert!(matches!(&r, Err(e) if !matches!(e, ValueError::NanFloat | ValueError::Or(_))), "C01.optable.sub: try_sub returns the variant the kind table says (Integer / Float-or-NaN-error / Boolean) or a type error, for every pair of heap-free scalar variants");
+        core::mem::forget(r);
+    }
+    {
+        let r = (flt(any_non_nan())).try_sub(Value::Integer(kani::any()));
+        assert!(matches!(&r, Ok(Value::Float(_)) | Err(ValueError::NanFloat)), "C01.optable.sub: try_sub returns the variant the kind table says (Integer / Float-or-NaN-error / Boolean) or a type error, for every pair of heap-free scalar variants");
+        core::mem::forget(r);
+    }
+    {
+        let r = (flt(any_non_nan())).try_sub(flt(any_non_nan()));
+        assert!(matches!(&r, Ok(Value::Float(_)) | Err(ValueError::NanFloat)), "C01.optable.sub: try_sub returns the variant the kind table says (Integer / Float-or-NaN-error / Boolean) or a type error, for every pair of heap-free scalar variants");
+        core::mem::forget(r);
+    }
+}
+
+// @unit tier=t float=1 timeout=2400 prop=C01 fn=try_mul bounded="operand variants null, boolean, integer, float (all payloads)"
+#[kani::proof]
+#[kani::unwind(2)]
+#[kani::stub(regex::Regex::new, crate::compiler::kani_support::stub_regex_new)]
+fn k_optable_mul() {
+    {
+        let r = (Value::Null).try_mul(Value::Null);
+        assert!(matches!(&r, Err(e) if !matches!(e, ValueError::NanFloat | ValueError::Or(_))), "C01.optable.mul: try_mul returns the variant the kind table says (Integer / Float-or-NaN-error / Boolean) or a type error, for every pair of heap-free scalar variants");
+        core::mem::forget(r);
+    }
+    {
+        let r = (Value::Null).try_mul(Value::Boolean(kani::any()));
+        assert!(matches!(&r, Err(e) if !matches!(e, ValueError::NanFloat | ValueError::Or(_))), "C01.optable.mul: try_mul returns the variant the kind table says (Integer / Float-or-NaN-error / Boolean) or a type error, for every pair of heap-free scalar variants");
+        core::mem::forget(r);
+    }
+    {
+        let r = (Value::Null).try_mul(Value::Integer(kani::any()));
+        assert!(matches!(&r, Err(e) if !matches!(e, ValueError::NanFloat | ValueError::Or(_))), "C01.optable.mul: try_mul returns the variant the kind table says (Integer / Float-or-NaN-error / Boolean) or a type error, for every pair of heap-free scalar variants");
+        core::mem::forget(r);
+    }
+    {
+        let r = (Value::Null).try_mul(flt(any_non_nan()));
+        assert!(matches!(&r, Err(e) if !matches!(e, ValueError::NanFloat | ValueError::Or(_))), "C01.optable.mul: try_mul returns the variant the kind table says (Integer / Float-or-NaN-error / Boolean) or a type error, for every pair of heap-free scalar variants");
+        core::mem::forget(r);
+    }
+    {
+        let r = (Value::Boolean(kani::any())).try_mul(Value::Null);
+        assert!(matches!(&r, Err(e) if !matches!(e, ValueError::NanFloat | ValueError::Or(_))), "C01.optable.mul: try_mul returns the variant the kind table says (Integer / Float-or-NaN-error / Boolean) or a type error, for every pair of heap-free scalar variants");
+        core::mem::forget(r);
+    }
+    {
+        let r = (Value::Boolean(kani::any())).try_mul(Value::Boolean(kani::any()));
+        assert!(matches!(&r, Err(e) if !matches!(e, ValueError::NanFloat | ValueError::Or(_))), "C01.optable.mul: try_mul returns the variant the kind table says (Integer / Float-or-NaN-error / Boolean) or a type error, for every pair of heap-free scalar variants");
+        core::mem::forget(r);
+    }
+    {
+        let r = (Value::Boolean(kani::any())).try_mul(Value::Integer(kani::any()));
+        assert!(matches!(&r, Err(e) if !matches!(e, ValueError::NanFloat | ValueError::Or(_))), "C01.optable.mul: try_mul returns the variant the kind table says (Integer / Float-or-NaN-error / Boolean) or a type error, for every pair of heap-free scalar variants");
+        core::mem::forget(r);
+    }
+    {
+        let r = (Value::Boolean(kani::any())).try_mul(flt(any_non_nan()));
+        assert!(matches!(&r, Err(e) if !matches!(e, ValueError::NanFloat | ValueError::Or(_))), "C01.optable.mul: try_mul returns the variant the kind table says (Integer / Float-or-NaN-error / Boolean) or a type error, for every pair of heap-free scalar variants");
+        core::mem::forget(r);
+    }
+    {
+        let r = (Value::Integer(kani::any())).try_mul(Value::Null);
+        assert!(matches!(&r, Err(e) if !matches!(e, ValueError::NanFloat | ValueError::Or(_))), "C01.optable.mul: try_mul returns the variant the kind table says (Integer / Float-or-NaN-error / Boolean) or a type error, for every pair of heap-free scalar variants");
+        core::mem::forget(r);
+    }
+    {
+        let r = (Value::Integer(kani::any())).try_mul(Value::Boolean(kani::any()));
+        assert!(matches!(&r, Err(e) if !matches!(e, ValueError::NanFloat | ValueError::Or(_))), "C01.optable.mul: try_mul returns the variant the kind table says (Integer / Float-or-NaN-error / Boolean) or a type error, for every pair of heap-free scalar variants");
+        core::mem::forget(r);
+    }
+    {
+        let r = (Value::Integer(kani::any())).try_mul(Value::Integer(kani::any()));
+        assert!(matches!(&r, Ok(Value::Integer(_))), "C01.optable.mul: try_mul returns the variant the kind table says (Integer / Float-or-NaN-error / Boolean) or a type error, for every pair of heap-free scalar variants");
+        core::mem::forget(r);
+    }
+    {
+        let r = (Value::Integer(kani::any())).try_mul(flt(any_non_nan()));
+        assert!(matches!(&r, Ok(Value::Float(_)) | Err(ValueError::NanFloat)), "C01.optable.mul: try_mul returns the variant the kind table says (Integer / Float-or-NaN-error / Boolean) or a type error, for every pair of heap-free scalar variants");
+        core::mem::forget(r);
+    }
+    {
+        let r = (flt(any_non_nan())).try_mul(Value::Null);
+        assert!(matches!(&r, Err(e) if !matches!(e, ValueError::NanFloat | ValueError::Or(_))), "C01.optable.mul: try_mul returns the variant the kind table says (Integer / Float-or-NaN-error / Boolean) or a type error, for every pair of heap-free scalar variants");
+        core::mem::forget(r);
+    }
+    {
+        let r = (flt(any_non_nan())).try_mul(Value::Boolean(kani::any()));
+        assert!(matches!(&r, Err(e) if !matches!(e, ValueError::NanFloat | ValueError::Or(_))), "C01.optable.mul: try_mul returns the variant the kind table says (Integer / Float-or-NaN-error / Boolean) or a type error, for every pair of heap-free scalar variants");
+        core::mem::forget(r);
+    }
+    {
+        let r = (flt(any_non_nan())).try_mul(Value::Integer(kani::any()));
+        assert!(matches!(&r, Ok(Value::Float(_)) | Err(ValueError::NanFloat)), "C01.optable.mul: try_mul returns the variant the kind table says (Integer / Float-or-NaN-error / Boolean) or a type error, for every pair of heap-free scalar variants");
+        core::mem::forget(r);
+    }
+    {
+        let r = (flt(any_non_nan())).try_mul(flt(any_non_nan()));
+        assert!(matches!(&r, Ok(Value::Float(_)) | Err(ValueError::NanFloat)), "C01.optable.mul: try_mul returns the variant the kind table says (Integer / Float-or-NaN-error / Boolean) or a type error, for every pair of heap-free scalar variants");
+        core::mem::forget(r);
+    }
+}
+
+// @unit tier=t float=1 timeout=2400 prop=C01 fn=try_lt bounded="operand variants null, boolean, integer, float (all payloads)"
+#[kani::proof]
+#[kani::unwind(2)]
+#[kani::stub(regex::Regex::new, crate::compiler::kani_support::stub_regex_new)]
+fn k_optable_lt() {
+    {
+        let r = (Value::Null).try_lt(Value::Null);
+        assert!(matches!(&r, Err(e) if !matches!(e, ValueError::NanFloat | ValueError::Or(_))), "C01.optable.lt: try_lt returns the variant the kind table says (Integer / Float-or-NaN-error / Boolean) or a type error, for every pair of heap-free scalar variants");
+        core::mem::forget(r);
+    }
+    {
+        let r = (Value::Null).try_lt(Value::Boolean(kani::any()));
+        assert!(matches!(&r, Err(e) if !matches!(e, ValueError::NanFloat | ValueError::Or(_))), "C01.optable.lt: try_lt returns the variant the kind table says (Integer / Float-or-NaN-error / Boolean) or a type error, for every pair of heap-free scalar variants");
+        core::mem::forget(r);
+    }
+    {
+        let r = (Value::Null).try_lt(Value::Integer(kani::any()));
+        assert!(matches!(&r, Err(e) if !matches!(e, ValueError::NanFloat | ValueError::Or(_))), "C01.optable.lt: try_lt returns the variant the kind table says (Integer / Float-or-NaN-error / Boolean) or a type error, for every pair of heap-free scalar variants");
+        core::mem::forget(r);
+    }
+    {
+        let r = (Value::Null).try_lt(flt(any_non_nan()));
+        assert!(matches!(&r, Err(e) if !matches!(e, ValueError::NanFloat | ValueError::Or(_))), "C01.optable.lt: try_lt returns the variant the kind table says (Integer / Float-or-NaN-error / Boolean) or a type error, for every pair of heap-free scalar variants");
+        core::mem::forget(r);
+    }
+    {
+        let r = (Value::Boolean(kani::any())).try_lt(Value::Null);
+        assert!(matches!(&r, Err(e) if !matches!(e, ValueError::NanFloat | ValueError::Or(_))), "C01.optable.lt: try_lt returns the variant the kind table says (Integer / Float-or-NaN-error / Boolean) or a type error, for every pair of heap-free scalar variants");
+        core::mem::forget(r);
+    }
+    {
+        let r = (Value::Boolean(kani::any())).try_lt(Value::Boolean(kani::any()));
+        assert!(matches!(&r, Err(e) if !matches!(e, ValueError::NanFloat | ValueError::Or(_))), "C01.optable.lt: try_lt returns the variant the kind table says (Integer / Float-or-NaN-error / Boolean) or a type error, for every pair of heap-free scalar variants");
+        core::mem::forget(r);
+    }
+    {
+        let r = (Value::Boolean(kani::any())).try_lt(Value::Integer(kani::any()));
+        assert!(matches!(&r, Err(e) if !matches!(e, ValueError::NanFloat | ValueError::Or(_))), "C01.optable.lt: try_lt returns the variant the kind table says (Integer / Float-or-NaN-error / Boolean) or a type error, for every pair of heap-free scalar variants");
+        core::mem::forget(r);
+    }
+    {
+        let r = (Value::Boolean(kani::any())).try_lt(flt(any_non_nan()));
+        assert!(matches!(&r, Err(e) if !matches!(e, ValueError::NanFloat | ValueError::Or(_))), "C01.optable.lt: try_lt returns the variant the kind table says (Integer / Float-or-NaN-error / Boolean) or a type error, for every pair of heap-free scalar variants");
+        core::mem::forget(r);
+    }
+    {
+        let r = (Value::Integer(kani::any())).try_lt(Value::Null);
+        assert!(matches!(&r, Err(e) if !matches!(e, ValueError::NanFloat | ValueError::Or(_))), "C01.optable.lt: try_lt returns the variant the kind table says (Integer / Float-or-NaN-error / Boolean) or a type error, for every pair of heap-free scalar variants");
+        core::mem::forget(r);
+    }
+    {
+        let r = (Value::Integer(kani::any())).try_lt(Value::Boolean(kani::any()));
+        assert!(matches!(&r, Err(e) if !matches!(e, ValueError::NanFloat | ValueError::Or(_))), "C01.optable.lt: try_lt returns the variant the kind table says (Integer / Float-or-NaN-error / Boolean) or a type error, for every pair of heap-free scalar variants");
+        core::mem::forget(r);
+    }
+    {
+        let r = (Value::Integer(kani::any())).try_lt(Value::Integer(kani::any()));
+        assert!(matches!(&r, Ok(Value::Boolean(_))), "C01.optable.lt: try_lt returns the variant the kind table says (Integer / Float-or-NaN-error / Boolean) or a type error, for every pair of heap-free scalar variants");
+        core::mem::forget(r);
+    }
+    {
+        let r = (Value::Integer(kani::any())).try_lt(flt(any_non_nan()));
+        assert!(matches!(&r, Ok(Value::Boolean(_))), "C01.optable.lt: try_lt returns the variant the kind table says (Integer / Float-or-NaN-error / Boolean) or a type error, for every pair of heap-free scalar variants");
+        core::mem::forget(r);
+    }
+    {
+        let r = (flt(any_non_nan())).try_lt(Value::Null);
+        assert!(matches!(&r, Err(e) if !matches!(e, ValueError::NanFloat | ValueError::Or(_))), "C01.optable.lt: try_lt returns the variant the kind table says (Integer / Float-or-NaN-error / Boolean) or a type error, for every pair of heap-free scalar variants");
+        core::mem::forget(r);
+    }
+    {
+        let r = (flt(any_non_nan())).try_lt(Value::Boolean(kani::any()));
+        assert!(matches!(&r, Err(e) if !matches!(e, ValueError::NanFloat | ValueError::Or(_))), "C01.optable.lt: try_lt returns the variant the kind table says (Integer / Float-or-NaN-error / Boolean) or a type error, for every pair of heap-free scalar variants");
+        core::mem::forget(r);
+    }
+    {
+        let r = (flt(any_non_nan())).try_lt(Value::Integer(kani::any()));
+        assert!(matches!(&r, Ok(Value::Boolean(_))), "C01.optable.lt: try_lt returns the variant the kind table says (Integer / Float-or-NaN-error / Boolean) or a type error, for every pair of heap-free scalar variants");
+        core::mem::forget(r);
+    }
+    {
+        let r = (flt(any_non_nan())).try_lt(flt(any_non_nan()));
+        assert!(matches!(&r, Ok(Value::Boolean(_))), "C01.optable.lt: try_lt returns the variant the kind table says (Integer / Float-or-NaN-error / Boolean) or a type error, for every pair of heap-free scalar variants");
+        core::mem::forget(r);
+    }
+}
+
 // vacuity canary: must FAIL; the runner treats a passing canary as a broken tool chain.
 // @unit tier=q prop=CANARY
 #[kani::proof]
